@@ -740,6 +740,9 @@ m('redo-empty-log-reports-invalid-lsn', ['C20', 'C01'], LR, """	greatestLSN := 0
 m('undo-reads-records-into-one-page', ['C02', 'C01', 'C20'], LR, """			logRecov.diskManager.ReadLog(logRecov.logBuffer, int32(fileOffset), &readBytes)
 			logRecov.DeserializeLogRecord(logRecov.logBuffer[:readBytes], &logRecord)""", """			logRecov.diskManager.ReadLog(logRecov.logBuffer[:common.PageSize], int32(fileOffset), &readBytes)
 			logRecov.DeserializeLogRecord(logRecov.logBuffer[:readBytes], &logRecord)""", ['C02-R7 [(*recovery/log_recovery.LogRecovery).Undo:ReadLog-gets-the-whole-buffer#1]'])
+m('redo-refuses-shrinking-update-records', ['C03', 'C02', 'C01', 'C20'], LR, """&logRecord.OldTuple, &logRecord.UpdateRID, txn, nil, logRecov.logManager, true)
+					pg.SetLSN(logRecord.GetLSN())""", """&logRecord.OldTuple, &logRecord.UpdateRID, txn, nil, logRecov.logManager, false)
+					pg.SetLSN(logRecord.GetLSN())""", ['C03-R9 [Redo:update-record-applied-in-both-directions#1]'])
 # drop the one that needs a helper that does not exist
 M = [x for x in M if x['id'] != 'insert-executor-unlocks-early']
 os.chdir(os.path.dirname(os.path.abspath(__file__)) + '/..')
